@@ -95,6 +95,47 @@ def extract(repo=REPO, target_dir=None, all_targets=False, crates="peppi"):
     return docs
 
 
+def normalise_renames(doc):
+    """Undo pure renames of local functions (same module, same signature, canonical name gone): the rules anchor on the
+    pinned tree's function names, and a rename alone must not raise an alarm. Returns (doc, {new name: canonical name})."""
+    import re
+    with open(os.path.join(VERIF, "rules", "anchors.json")) as fh:
+        anchors = json.load(fh)["fns"]
+    present = {f["path"]: f for f in doc["items"]["fns"]}
+    missing = [p for p in anchors if p not in present]
+    if not missing:
+        return doc, {}
+    extra = [p for p in present if p not in anchors and "_serde" not in p and "num_enum" not in p and "::_::" not in p]
+    renames = {}
+    for m in missing:
+        mod = m.rsplit("::", 1)[0]
+        sig = (anchors[m]["inputs"], anchors[m]["output"])
+        cands = [e for e in extra if e.rsplit("::", 1)[0] == mod and (present[e]["inputs"], present[e]["output"]) == sig and e not in renames]
+        if len(cands) == 1:
+            renames[cands[0]] = m
+    if not renames:
+        return doc, {}
+    text = json.dumps(doc)
+    for new, old in sorted(renames.items(), key=lambda kv: -len(kv[0])):
+        # method names inside call nodes are recorded separately ("method": "..."): rename those too
+        text = re.sub(re.escape(json.dumps(new)[1:-1]) + r'(?=("|::\{closure))', json.dumps(old)[1:-1].replace("\\", "\\\\"), text)
+    doc2 = json.loads(text)
+    short = {n.rsplit("::", 1)[1]: o.rsplit("::", 1)[1] for n, o in renames.items()}
+
+    def fix(n):
+        if isinstance(n, dict):
+            if n.get("k") == "MethodCall" and n.get("method") in short and (n.get("path") in renames.values() or n.get("resolved") in renames.values()):
+                n["method"] = short[n["method"]]
+            for v in n.values():
+                fix(v)
+        elif isinstance(n, list):
+            for v in n:
+                fix(v)
+    fix(doc2)
+    doc2["_renamed"] = renames
+    return doc2, renames
+
+
 def load(repo=REPO, target_dir=None):
     """Facts for the lib target of the tree at `repo`, cached by source hash."""
     key = source_hash(repo)
@@ -131,6 +172,9 @@ def load(repo=REPO, target_dir=None):
         lock.close()
     if doc.get("source_hash") != key:
         raise FactsError("fact file does not carry the hash of the analysed sources")
+    cache = doc.get("_cache")
+    doc, renames = normalise_renames(doc)
+    doc["_cache"] = cache
     return doc
 
 
